@@ -90,6 +90,8 @@ class Ctx:
                 alw = {json.dumps(c, sort_keys=True) for c in allowed}
                 if not all(c in alw for c in cur): continue
             if k.get('instance') is not None and instance and k['instance'] != instance: continue
+            if k.get('instance_regex') is not None:
+                if not instance or not re.search(k['instance_regex'], instance): continue
             return k
         return None
 
